@@ -98,6 +98,7 @@ impl Prop for C01 {
         r.threads = pick_threads(rng);
         r.plan = benign_plan(rng);
         fit_chunks(&mut r.plan, chain_bytes(&scn.chain), 150_000);
+        fit_writes(&mut r.plan, chain_bytes(&scn.chain) * 3, 300_000);
         scn.runs = vec![r];
         h.check(&mut scn)?;
         Ok(())
